@@ -119,12 +119,33 @@ BbgDomain(s) == LET ws == SplitOn(Upper(s), <<32>>) IN
                 /\ \A i \in DOMAIN ws : \A k \in DOMAIN YellowKeys :
                       (i > 1 /\ IsPre(Upper(YellowKeys[k]), ws[i])) => ws[i] = Upper(YellowKeys[k])
 
+\* proper: every word (between single blanks) capitalised
+Proper(s) == LET ws == SplitOn(s, <<32>>) IN JoinWith([i \in DOMAIN ws |-> Capitalize(ws[i])], <<32>>)
+\* the characters whose case maps are the ones written above: Latin-1 without the three letters whose capital is not
+\* in Latin-1 (micro sign, sharp s, y with diaeresis) and a few characters without case from elsewhere
+Caseless == {8364, 20013, 8211}
+CaseDomain(s) == \A i \in DOMAIN s : (s[i] < 256 /\ s[i] \notin {181, 223, 255}) \/ s[i] \in Caseless
+\* strip knows more blanks than IsSpaceC: texts holding those are outside the domain
+OtherSpace == {28, 29, 30, 31, 133, 160}
+SpaceDomain(s) == \A i \in DOMAIN s : s[i] \notin OtherSpace /\ (s[i] < 256 \/ s[i] \in Caseless)
+
+\* f12: a float written with two decimals, the nearest such decimal (ties to the even one).  x = num / den, den a power of two
+\* (such a float is exact, so "nearest" is about the number itself)
+RECURSIVE DigitsOf(_)
+DigitsOf(n) == IF n < 10 THEN <<48 + n>> ELSE DigitsOf(n \div 10) \o <<48 + (n % 10)>>
+F12(num, den) == LET a  == IF num < 0 THEN -num ELSE num
+                     q  == (a * 100) \div den
+                     r  == (a * 100) % den
+                     h  == IF 2 * r > den \/ (2 * r = den /\ q % 2 = 1) THEN q + 1 ELSE q
+                 IN (IF num < 0 THEN <<45>> ELSE <<>>) \o DigitsOf(h \div 100) \o <<46, 48 + ((h % 100) \div 10), 48 + (h % 10)>>
+
 \* ---- values and outcomes as they cross the boundary ----------------------------------------------------
 TStr(s)   == <<"s", s>>
 TNone     == <<"n", 0>>
 TInt(k)   == <<"i", k>>
 TStrs(ws) == <<"ls", ws>>                \* a list of strings
 TInts(s)  == <<"li", s>>                 \* a list of ints (common_prefix works on any sequences)
+TFlt(n, d) == <<"f", <<n, d>>>>          \* a float, exactly n / d
 Val(v)    == [kind |-> "val", v |-> v]
 Exc(cls)  == [kind |-> "exc", cls |-> cls]
 IsStrV(x) == x[1] = "s"
@@ -150,6 +171,10 @@ TextInDomain(c) ==
                                           /\ Len(c.seps) > 1 => (SingleChars(c.seps) /\ Cardinality(SepChars(c.seps)) = Len(c.seps))
       [] c.op = "bbgcase" -> IsStrV(c.x) => BbgDomain(c.x[2])
       [] c.op = "as_ascii" -> IsStrV(c.x) => \A i \in DOMAIN c.x[2] : ~IsControl(c.x[2][i])
+      [] c.op \in {"lower", "upper", "capitalize", "proper"} -> IsStrV(c.x) => CaseDomain(c.x[2])
+      [] c.op = "relabel_lower" -> IsStrV(c.x) => (CaseDomain(c.x[2]) /\ SpaceDomain(c.x[2]))
+      [] c.op = "strip" -> IsStrV(c.x) => SpaceDomain(c.x[2])
+      [] c.op = "f12" -> c.x[1] = "f" => (c.x[2][2] \in {1, 2, 4, 8, 16, 32, 64} /\ c.x[2][1] < 1000000 /\ c.x[2][1] > -1000000)
       [] OTHER -> TRUE
 
 TextWant(c) ==
@@ -166,6 +191,11 @@ TextWant(c) ==
            IF ~IsStrV(c.x) THEN {Val(c.x)} ELSE {Val(TStrs(SplitLaw(c.x[2], c.seps, c.dedup)))}
       [] c.op = "as_ascii"      -> IF ~IsStrV(c.x) THEN {Val(c.x)} ELSE {Val(TStr(AsAscii(c.x[2])))}
       [] c.op = "capitalize"    -> IF ~IsStrV(c.x) THEN {Val(c.x)} ELSE {Val(TStr(Capitalize(c.x[2])))}
+      [] c.op = "lower"         -> IF ~IsStrV(c.x) THEN {Val(c.x)} ELSE {Val(TStr(Lower(c.x[2])))}
+      [] c.op = "upper"         -> IF ~IsStrV(c.x) THEN {Val(c.x)} ELSE {Val(TStr(Upper(c.x[2])))}
+      [] c.op = "proper"        -> IF ~IsStrV(c.x) THEN {Val(c.x)} ELSE {Val(TStr(Proper(c.x[2])))}
+      [] c.op = "strip"         -> IF ~IsStrV(c.x) THEN {Val(c.x)} ELSE {Val(TStr(Strip(c.x[2])))}
+      [] c.op = "f12"           -> IF c.x[1] # "f" THEN {Val(c.x)} ELSE {Val(TStr(F12(c.x[2][1], c.x[2][2])))}
       [] c.op = "relabel_lower" -> IF ~IsStrV(c.x) THEN {Val(c.x)} ELSE {Val(TStr(RelabelLower(c.x[2])))}
       [] c.op = "bbgcase"       -> IF ~IsStrV(c.x) THEN {Val(c.x)} ELSE {Val(TStr(BbgCase(c.x[2])))}
       [] c.op = "alphabet"      -> {Val(TStr(Lo26))}
